@@ -610,10 +610,13 @@ class KTHierarchyPropagator:
         """
         ado3 = numpy.zeros(ado1.shape, dtype=ado1.dtype)
         
-        if self.hy.ham.has_rwa:
-            HH = self.hy.ham.data  - self.HOmega
-        else:
-            HH = self.hy.ham.data
+        # the Hamiltonian is taken in internal units whatever the caller's
+        # energy units are
+        with energy_units("int"):
+            if self.hy.ham.has_rwa:
+                HH = self.hy.ham.data  - self.HOmega
+            else:
+                HH = self.hy.ham.data
         
         for nn in range(slevel, self.hy.hsize):
             
